@@ -975,3 +975,7 @@ mod protocol_tests {
         assert!(protocol.event_queue.is_empty());
     }
 }
+
+#[cfg(ggrs_verif)]
+#[path = "../verif/proto.rs"]
+mod verif_proto;
